@@ -157,6 +157,9 @@ def build_slots():
 def build_leaves():
     return [
         ("Name", lambda: N("a")),
+        ("Name_", lambda: N("a_")),
+        ("Under", lambda: N("_")),
+        ("Name9", lambda: N("a9")),
         ("Int", lambda: Constant(value=1)),
         ("Float", lambda: Constant(value=1.5)),
         ("Complex", lambda: Constant(value=2j)),
